@@ -172,16 +172,95 @@ fn oracle(c: &Case, st: &mut Stats) -> Result<(), String> {
   Ok(())
 }
 
+/// One collection of more than 16384 (2 x 16384) reports in a single call (S200): qualifying
+/// measurements whose reports sit at both ends of the input, one measurement just below
+/// the threshold, distinct singletons in between.
+#[derive(Clone, Debug, Serialize, Deserialize)]
+pub struct Huge {
+  pub i: u64,
+}
+
+fn oracle_huge(c: &Huge, st: &mut Stats) -> Result<(), String> {
+  let t = 2 + (c.i % 3) as u32;
+  let batches = 1 + (c.i / 3 % 2) as usize;
+  let epoch = format!("huge-{}", c.i);
+  let mk = |m: &[u8], n: usize, tagbyte: u8| -> Result<(Vec<Message>, Vec<Vec<u8>>), String> {
+    let mg = starx::mg(m, t, epoch.as_bytes());
+    let rnd = starx::local_rnd(&mg);
+    let mut out = Vec::new();
+    let mut auxes = Vec::new();
+    for j in 0..n {
+      let a = vec![tagbyte, j as u8];
+      out.push(starx::report(&mg, &rnd, Some(&a[..]))?);
+      auxes.push(a);
+    }
+    Ok((out, auxes))
+  };
+  let (a, mut a_aux) = mk(b"huge-group-a", t as usize + 1, 0xA0)?;
+  let (b, mut b_aux) = mk(b"huge-group-b", t as usize, 0xB0)?;
+  let (cc, _) = mk(b"huge-group-c-below", t as usize - 1, 0xC0)?;
+  let mut head: Vec<Message> = Vec::new();
+  let mut tail: Vec<Message> = Vec::new();
+  // A: 2 reports in front, the rest at the end; B: 1 in front; C: 1 in front (if it has any)
+  for (k, m) in a.into_iter().enumerate() {
+    if k < 2 { head.push(m) } else { tail.push(m) }
+  }
+  for (k, m) in b.into_iter().enumerate() {
+    if k < 1 { head.push(m) } else { tail.push(m) }
+  }
+  for (k, m) in cc.into_iter().enumerate() {
+    if k < 1 { head.push(m) } else { tail.push(m) }
+  }
+  let filler = batches * 16384 + 1;
+  let mut msgs = head;
+  for f in 0..filler {
+    let m = format!("huge-singleton-{f}");
+    msgs.push(mk(m.as_bytes(), 1, 0xF0)?.0.pop().unwrap());
+  }
+  msgs.extend(tail);
+  let mut expect: Obs = BTreeMap::new();
+  a_aux.sort();
+  b_aux.sort();
+  expect.insert(b"huge-group-a".to_vec(), a_aux);
+  expect.insert(b"huge-group-b".to_vec(), b_aux);
+  let server = AggregationServer::new(t, &epoch);
+  let mut rev = msgs.clone();
+  rev.reverse();
+  for (input, what) in [(&msgs, "as built"), (&rev, "reversed")] {
+    st.evals(1);
+    let (obs, _, _) = observe(&server, input, 4)?;
+    if obs != expect {
+      return Err(format!(
+        "aggregation of {} reports in one call ({what}, t={t}) differs from the expected output: got measurements {:?} with {:?} associated data, want huge-group-a ({} reports) and huge-group-b ({} reports)",
+        input.len(),
+        obs.keys().map(|k| String::from_utf8_lossy(k).to_string()).collect::<Vec<_>>(),
+        obs.values().map(|v| v.len()).collect::<Vec<_>>(),
+        t + 1,
+        t
+      ));
+    }
+  }
+  st.class(&format!("reports>{}", batches * 16384));
+  st.nontrivial(&(c.i,));
+  if st.want_sample() {
+    st.sample(json!({"t": t, "reports": msgs.len(), "qualifying": 2, "below": 1 + filler}));
+  }
+  Ok(())
+}
+
 pub fn property() -> Property {
   Property {
     id: "C18",
     level: "exploration",
-    rule: "generated (t in 1..8, 1..40 groups quick / ..400 thorough with distinct measurements and sizes t-1 / t / t+1 / t-8..t+8, per-client aux absent / empty / bytes (now and then several hundred bytes, so that payloads span several cipher blocks and differ in an early one), a generated permutation of the flattened reports, two worker-pool sizes from 1..16); every case is run in grouped order, permuted order, and permuted order under the second pool size. Oracle: the output as a map measurement -> sorted multiset of associated data equals {groups with >= t reports}; no group missing, duplicated or below threshold; identical across orders and pool sizes. Non-trivial: at least one group >= t and one < t.",
+    rule: "generated (t in 1..8, 1..40 groups quick / ..400 thorough with distinct measurements and sizes t-1 / t / t+1 / t-8..t+8, per-client aux absent / empty / bytes (now and then several hundred bytes, so that payloads span several cipher blocks and differ in an early one), a generated permutation of the flattened reports, two worker-pool sizes from 1..16); every case is run in grouped order, permuted order, and permuted order under the second pool size. Oracle: the output as a map measurement -> sorted multiset of associated data equals {groups with >= t reports}; no group missing, duplicated or below threshold; identical across orders and pool sizes. Non-trivial: at least one group >= t and one < t. Sub-check huge_collection: 2 (quick) / 6 (thorough) single calls with more than 16384 or 32768 reports, two qualifying measurements whose reports sit at both ends of the input, one measurement one report short, distinct singletons in between, as built and reversed.",
     assumptions: vec![
       "the reference server reports a present-but-empty associated datum as absent; both carry the same data and are compared as equal here (the absent/empty distinction is asserted at protocol level in C01)",
       "schedules are varied only through the rayon pool size; the harness does not own rayon's interleaving",
       "each client submits one report (an honest multiset)",
     ],
-    subs: vec![prop_sub("aggregation", 600, 15000, strat, oracle)],
+    subs: vec![
+      prop_sub("aggregation", 600, 15000, strat, oracle),
+      enum_sub("huge_collection", |t| if t == Tier::Quick { 2 } else { 6 }, |_, i| Huge { i: if i < 2 { i * 3 + 1 } else { i } }, oracle_huge),
+    ],
   }
 }
